@@ -1,21 +1,11 @@
 (* C06: joining path components with '/' is injective; add_* delegate to their own family; the
    record of finding F1 (the unfixed add_continuum_power_rate / add_cx_power_rate). *)
-From Coq Require Import ZArith List Bool String Ascii Lia.
+From Coq Require Import ZArith List Bool String Ascii Lia DecimalString DecimalZ Decimal.
 Require Import Cherab.Model.C06_Repo Cherab.Model.C06_Spec Cherab.Proofs.C06_Keys.
 Import ListNotations.
 Open Scope Z_scope.
 Open Scope list_scope.
 
-(* os.path.join of the component list *)
-Fixpoint flatten (p : path) : string :=
-  match p with
-  | [] => EmptyString
-  | [x] => x
-  | x :: t => (x ++ String "/"%char (flatten t))%string
-  end.
-
-Definition slash : ascii := "/"%char.
-Definition comp_ok (s : string) : bool := nochar slash s.
 
 Lemma nochar_has c a b : nochar c (a ++ String c b)%string = false.
 Proof. rewrite nochar_app. cbn. rewrite Ascii.eqb_refl. cbn. apply andb_false_r. Qed.
@@ -37,6 +27,48 @@ Proof.
     change (flatten (y :: y2 :: t')) with (y ++ String slash (flatten (y2 :: t')))%string in E.
     apply split_first in E; [|exact Wx|exact Wy]. destruct E as [-> E].
     f_equal. apply IH; [discriminate | discriminate | exact Wt | exact Wt' | exact E].
+Qed.
+
+(* ---- the rendered components of every key's file are slash-free when its symbols are ---- *)
+Lemma comp_ok_uint d : comp_ok (NilEmpty.string_of_uint d) = true.
+Proof. unfold comp_ok. induction d; cbn; auto. Qed.
+
+Lemma comp_ok_strZ z : comp_ok (strZ z) = true.
+Proof.
+  unfold strZ. destruct (Z.to_int z) as [d|d]; cbn [NilEmpty.string_of_int].
+  - apply comp_ok_uint.
+  - unfold comp_ok. cbn. apply comp_ok_uint.
+Qed.
+
+Lemma comp_ok_json s : comp_ok s = true -> comp_ok (json s) = true.
+Proof. unfold comp_ok, json. intros H. rewrite nochar_app, H. reflexivity. Qed.
+
+Lemma kpath_comp_ok k : key_comp_ok k = true -> forallb comp_ok (kpath k) = true.
+Proof.
+  destruct k as [f s q|d dq r rq|c s q t|d dq r rq t|s q t|d r rq t m|b t q|b m t q|b t q tr];
+  cbn [key_comp_ok kpath loc fst]; intros H;
+  repeat match goal with H : (_ && _)%bool = true |- _ => apply andb_true_iff in H as [? H] end;
+  try destruct f; try destruct c;
+  unfold path_adf11, adf11_dir, path_tcx, path_pec, pec_dir, path_pectcx, path_wvl, path_bcx, path_bstop, path_bpop, path_bem,
+       path_tcx_s, path_pec_s, path_pec_d, path_pectcx_s, path_wvl_s, path_bcx_s, path_bstop_s, path_bpop_s, path_bem_s;
+  cbn [Datatypes.app forallb];
+  rewrite ?comp_ok_strZ, ?comp_ok_json by (assumption || apply comp_ok_strZ);
+  repeat match goal with H : comp_ok ?s = true |- _ => rewrite H; clear H end; reflexivity.
+Qed.
+
+Lemma forallb_app_true {A} (f : A -> bool) a b : forallb f a = true -> forallb f b = true -> forallb f (a ++ b) = true.
+Proof. intros Ha Hb. rewrite forallb_app, Ha, Hb. reflexivity. Qed.
+
+(* distinct files of the model are distinct file NAMES on disk *)
+Lemma file_names_injective root k k' :
+  forallb comp_ok root = true -> key_comp_ok k = true -> key_comp_ok k' = true ->
+  flatten (root ++ kpath k) = flatten (root ++ kpath k') -> kpath k = kpath k'.
+Proof.
+  intros R K K' E. apply (app_inv_head root). apply flatten_injective; auto.
+  - intros E0. apply app_eq_nil in E0 as [_ E0]. revert E0. destruct k as [f| | | | | | | |]; try destruct f; discriminate.
+  - intros E0. apply app_eq_nil in E0 as [_ E0]. revert E0. destruct k' as [f| | | | | | | |]; try destruct f; discriminate.
+  - apply forallb_app_true; [exact R | now apply kpath_comp_ok].
+  - apply forallb_app_true; [exact R | now apply kpath_comp_ok].
 Qed.
 
 (* every add_* function performs exactly the steps of its own family's update_* on the singleton
